@@ -232,7 +232,11 @@ def clear_inactive_cache(
         if not version_path.is_dir():
             continue
         for file in os.scandir(version_path):
-            if file.stat().st_atime + _CACHED_FILE_MAXIMUM_SURVIVAL <= time.time():
+            # A file that was written recently is in use as well: writing
+            # does not update the access time.
+            stat = file.stat()
+            last_used = max(stat.st_atime, stat.st_mtime)
+            if last_used + _CACHED_FILE_MAXIMUM_SURVIVAL <= time.time():
                 try:
                     os.remove(file.path)
                 except OSError:  # silently ignore all failures
